@@ -40,6 +40,8 @@ fn main() {
         "wire-decode" => streams::wire::run_decode(&mut r, n, &mut out),
         "wire-mutations" => streams::wire::run_decode_mutations(&mut r, n, &mut out),
         "wire-encode" => streams::wire::run_encode(&mut r, n, extra, &mut out),
+        "zone-resolve" => streams::zone::run_resolve(&mut r, n, &mut out),
+        "zones-merge" => streams::zone::run_merge(&mut r, n, &mut out),
         other => {
             eprintln!("unknown stream {other}");
             std::process::exit(2);
